@@ -226,7 +226,7 @@ impl Prop for C05 {
         }).prop_map(|(d, ring, (h, t), reduced, point, threads)| Case { d, ring, h, t, reduced, point, threads }).boxed()
     }
     fn cases(tier: Tier) -> u32 { tier.pick(8_000, 150_000) }
-    fn shards(_: Tier) -> usize { 8 }
+    fn shards(tier: Tier) -> usize { tier.pick(8, 16) }
     fn replay_repeats() -> usize { 5 }
     fn run(case: &Case, ctx: &Ctx) -> Outcome { to_outcome(run_case(case, ctx.tier)) }
 }
